@@ -1,58 +1,237 @@
 import CovfieModel.Model.Kinds
 /-! # C13 — Every well-kinded composition supports the whole field API (kind model; the C++ type checker is
-    tied in by the compile matrix) -/
+    tied in by the compile matrix, `harness/props/c13.py`, through the `kindcheck` driver) -/
 namespace Covfie.C13
 open Covfie.Kinds
 
-/-- well-kindedness is hereditary: a well-kinded stack is built on a well-kinded stack -/
-theorem kind_sub (s : KStack) (k : Kind) (h : kind s = .ok k) :
-    match s with
-    | .layout _ _ _ b | .clamp b | .backup b | .affine b | .shuffle _ b | .cast _ b | .deref b | .interp _ _ b =>
-        ∃ kb, kind b = .ok kb
-    | _ => True := by
-  cases s <;> simp only [kind] at h ⊢ <;> try trivial
-  all_goals
-    split at h
-    · simp at h
-    · exact ⟨_, by assumption⟩
+/-- unfolding: a layered stack is analysed by one `step` over the analysis of what lies beneath -/
+theorem kind_layer (outer b : KStack)
+    (h : analyse outer = step outer (analyse b)) :
+    kind outer = match kind b with | .error e => .error e | .ok k => layerKind outer k := by
+  unfold kind; rw [h]; unfold step; cases (analyse b).1 <;> rfl
 
-/-- compositionality: the kind of a layered stack depends on the stack beneath only through its kind -/
-theorem kind_compositional (l : Lay) (a : SK) (n : Nat) (b b' : KStack) (h : kind b = kind b') :
-    kind (.layout l a n b) = kind (.layout l a n b') := by
-  simp only [kind, h]; cases kind b' <;> rfl
-theorem kind_compositional_interp (i : Itp) (a : SK) (b b' : KStack) (h : kind b = kind b') :
-    kind (.interp i a b) = kind (.interp i a b') := by
-  simp only [kind, h]; cases kind b' <;> rfl
-theorem kind_compositional_clamp (b b' : KStack) (h : kind b = kind b') : kind (.clamp b) = kind (.clamp b') := by
-  simp only [kind, h]; cases kind b' <;> rfl
+/-- compositionality, for every layer: kind and lookup verdict of `L b` depend on `b` only through `kind b`, `lookupErr b` -/
+theorem analyse_compositional (outer outer' b b' : KStack)
+    (h : analyse outer = step outer (analyse b)) (h' : analyse outer' = step outer' (analyse b'))
+    (hk : layerKind outer = layerKind outer') (hl : layerLookup outer = layerLookup outer')
+    (e1 : kind b = kind b') (e2 : lookupErr b = lookupErr b') : analyse outer = analyse outer' := by
+  have : analyse b = analyse b' := by
+    unfold kind at e1; unfold lookupErr at e2; exact Prod.ext e1 e2
+  rw [h, h', this]; unfold step; rw [hk, hl]
 
-/-- every well-kinded stack whose view fits supports every API operation -/
-theorem wellKinded_supports (s : KStack) (k : Kind) (h : kind s = .ok k) (hv : viewFits s = true) (op : ApiOp) :
-    supports s op = true := by
-  unfold supports; rw [h]; cases op <;> simp [hv]
+theorem wellKinded_iff (s : KStack) : wellKinded s = true ↔ (∃ k, kind s = .ok k) ∧ lookupErr s = none := by
+  unfold wellKinded
+  cases hk : kind s <;> cases hl : lookupErr s <;> simp
 
-/-- ill-kinded compositions are rejected (support nothing) -/
-theorem illKinded_rejected (s : KStack) (e : KindErr) (h : kind s = .error e) (op : ApiOp) : supports s op = false := by
+/-- the specification of compatibility is met by the mechanism -/
+theorem compatible_conv : ∀ (d s : KStack), compatible d s = true → conv d s = true := by
+  intro d
+  induction d with
+  | layout l a n b ih =>
+    intro s h
+    cases s with
+    | layout l' a' n' b' =>
+      cases b <;> cases b' <;> simp [compatible] at h
+      obtain ⟨⟨⟨h1, h2⟩, _⟩, _⟩ := h
+      simp [conv, h1, h2]
+    | _ => simp [compatible] at h
+  | interp i a n b ih =>
+    intro s h
+    cases s with
+    | interp i' a' n' b' =>
+      simp only [compatible, Bool.and_eq_true] at h
+      simp [conv, ih b' h.2]
+    | _ => simp [compatible] at h
+  | affine b ih =>
+    intro s h
+    cases s with
+    | affine b' =>
+      simp only [compatible, Bool.and_eq_true] at h
+      simp [conv, h.1, ih b' h.2]
+    | _ => simp [compatible] at h
+  | _ => intro s h; simp [compatible] at h
+
+theorem compatible_convertible (d s : KStack) (h : compatible d s = true) : convertible d s = true := by
+  unfold convertible; simp [compatible_conv d s h]
+
+/-- **every well-kinded stack whose view fits supports every API operation the property claims for it** -/
+theorem wellKinded_supports (s : KStack) (h : wellKinded s = true) (hv : viewFits s = true) (op : ApiOp)
+    (ha : applicable s op = true) : supports s op = true := by
+  obtain ⟨⟨k, hk⟩, hl⟩ := (wellKinded_iff s).mp h
+  unfold supports; rw [hk]
+  cases op <;> simp_all [applicable, compatible_convertible]
+
+/-- a violated `static_assert` / constraint rejects every operation -/
+theorem declared_violation_rejects_all (s : KStack) (e : KindErr) (h : kind s = .error e) (op : ApiOp) :
+    supports s op = false := by
   unfold supports; rw [h]
 
+/-- **ill-kinded compositions are rejected**: no program can look a value up through one -/
+theorem illKinded_rejected (s : KStack) (h : wellKinded s = false) : supports s .at = false := by
+  unfold supports
+  unfold wellKinded at h
+  cases hk : kind s with
+  | error e => rfl
+  | ok k =>
+    rw [hk] at h
+    cases hl : lookupErr s with
+    | none => rw [hl] at h; simp at h
+    | some e => simp
+
+/-- a view that exceeds `field_view`'s 256-byte limit cannot be created or queried -/
+theorem viewTooLarge_rejected (s : KStack) (h : viewFits s = false) : supports s .view = false ∧ supports s .at = false := by
+  unfold supports; cases kind s <;> simp [h]
+
+
+/-- the eight layer constructors all analyse by one `step` (so `kind_layer` / `analyse_compositional` apply to each) -/
+theorem analyse_layout (l : Lay) (a : SK) (n : Nat) (b : KStack) : analyse (.layout l a n b) = step (.layout l a n b) (analyse b) := rfl
+theorem analyse_clamp (b : KStack) : analyse (.clamp b) = step (.clamp b) (analyse b) := rfl
+theorem analyse_backup (b : KStack) : analyse (.backup b) = step (.backup b) (analyse b) := rfl
+theorem analyse_affine (b : KStack) : analyse (.affine b) = step (.affine b) (analyse b) := rfl
+theorem analyse_shuffle (p : List Nat) (b : KStack) : analyse (.shuffle p b) = step (.shuffle p b) (analyse b) := rfl
+theorem analyse_cast (t : SK) (b : KStack) : analyse (.cast t b) = step (.cast t b) (analyse b) := rfl
+theorem analyse_deref (b : KStack) : analyse (.deref b) = step (.deref b) (analyse b) := rfl
+theorem analyse_interp (i : Itp) (a : SK) (n : Nat) (b : KStack) : analyse (.interp i a n b) = step (.interp i a n b) (analyse b) := rfl
+
+/-- the stack directly beneath a layer -/
+def sub : KStack → Option KStack
+  | .layout _ _ _ b | .clamp b | .backup b | .affine b | .shuffle _ b | .cast _ b | .deref b | .interp _ _ _ b => some b
+  | _ => none
+
+theorem analyse_sub (s b : KStack) (h : sub s = some b) : analyse s = step s (analyse b) := by
+  cases s <;> simp [sub] at h <;> subst h <;> rfl
+
+/-- **compositionality for every layer constructor**: the declared kind of a layered stack is the layer's rule applied
+    to the kind of the stack beneath -/
+theorem kind_compositional (s b : KStack) (h : sub s = some b) :
+    kind s = match kind b with | .error e => .error e | .ok k => layerKind s k :=
+  kind_layer s b (analyse_sub s b h)
+
+/-- replacing the stack beneath a layer by one of the same kind and lookup verdict changes nothing -/
+theorem kind_congr_layout (l : Lay) (a : SK) (n : Nat) (b b' : KStack) (e1 : kind b = kind b') (e2 : lookupErr b = lookupErr b') :
+    analyse (.layout l a n b) = analyse (.layout l a n b') :=
+  analyse_compositional _ _ b b' rfl rfl (by funext k; rfl) (by funext k; rfl) e1 e2
+theorem kind_congr_interp (i : Itp) (a : SK) (n : Nat) (b b' : KStack) (e1 : kind b = kind b') (e2 : lookupErr b = lookupErr b') :
+    analyse (.interp i a n b) = analyse (.interp i a n b') :=
+  analyse_compositional _ _ b b' rfl rfl (by funext k; rfl) (by funext k; cases i <;> rfl) e1 e2
+theorem kind_congr_clamp (b b' : KStack) (e1 : kind b = kind b') (e2 : lookupErr b = lookupErr b') : analyse (.clamp b) = analyse (.clamp b') :=
+  analyse_compositional _ _ b b' rfl rfl (by funext k; rfl) (by funext k; rfl) e1 e2
+theorem kind_congr_backup (b b' : KStack) (e1 : kind b = kind b') (e2 : lookupErr b = lookupErr b') : analyse (.backup b) = analyse (.backup b') :=
+  analyse_compositional _ _ b b' rfl rfl (by funext k; rfl) (by funext k; rfl) e1 e2
+theorem kind_congr_affine (b b' : KStack) (e1 : kind b = kind b') (e2 : lookupErr b = lookupErr b') : analyse (.affine b) = analyse (.affine b') :=
+  analyse_compositional _ _ b b' rfl rfl (by funext k; rfl) (by funext k; rfl) e1 e2
+theorem kind_congr_shuffle (p : List Nat) (b b' : KStack) (e1 : kind b = kind b') (e2 : lookupErr b = lookupErr b') :
+    analyse (.shuffle p b) = analyse (.shuffle p b') :=
+  analyse_compositional _ _ b b' rfl rfl (by funext k; rfl) (by funext k; rfl) e1 e2
+theorem kind_congr_cast (t : SK) (b b' : KStack) (e1 : kind b = kind b') (e2 : lookupErr b = lookupErr b') : analyse (.cast t b) = analyse (.cast t b') :=
+  analyse_compositional _ _ b b' rfl rfl (by funext k; rfl) (by funext k; rfl) e1 e2
+theorem kind_congr_deref (b b' : KStack) (e1 : kind b = kind b') (e2 : lookupErr b = lookupErr b') : analyse (.deref b) = analyse (.deref b') :=
+  analyse_compositional _ _ b b' rfl rfl (by funext k; rfl) (by funext k; rfl) e1 e2
+
+/-- well-kindedness is hereditary: a stack whose declared kind exists is built on one whose declared kind exists, and a
+    well-kinded stack is built on a well-kinded stack -/
+theorem kind_sub (s b : KStack) (k : Kind) (hs : sub s = some b) (h : kind s = .ok k) : ∃ kb, kind b = .ok kb := by
+  rw [kind_compositional s b hs] at h
+  cases hb : kind b with
+  | error e => rw [hb] at h; simp at h
+  | ok kb => exact ⟨kb, rfl⟩
+theorem wellKinded_sub (s b : KStack) (hs : sub s = some b) (h : wellKinded s = true) : wellKinded b = true := by
+  obtain ⟨⟨k, hk⟩, hl⟩ := (wellKinded_iff s).mp h
+  obtain ⟨kb, hkb⟩ := kind_sub s b k hs hk
+  refine (wellKinded_iff b).mpr ⟨⟨kb, hkb⟩, ?_⟩
+  have ha := analyse_sub s b hs
+  unfold lookupErr at hl ⊢; unfold kind at hkb
+  rw [ha] at hl; unfold step at hl; rw [hkb] at hl
+  cases hb : (analyse b).2 with
+  | none => rfl
+  | some e => rw [hb] at hl; simp at hl
+
+/-- monotonicity of the support table -/
+theorem supports_concept_of_any (s : KStack) (op : ApiOp) (h : supports s op = true) : supports s .concept = true := by
+  unfold supports at h ⊢; cases hk : kind s with
+  | error e => rw [hk] at h; simp at h
+  | ok k => rfl
+theorem supports_view_of_at (s : KStack) (h : supports s .at = true) : supports s .view = true := by
+  unfold supports at h ⊢; cases hk : kind s with
+  | error e => rw [hk] at h; simp at h
+  | ok k => rw [hk] at h; simp at h ⊢; exact h.1
+theorem supports_at_wellKinded (s : KStack) (h : supports s .at = true) : wellKinded s = true := by
+  cases hw : wellKinded s with
+  | true => rfl
+  | false => rw [illKinded_rejected s hw] at h; simp at h
+/-- a conversion is only ever supported from a well-kinded source -/
+theorem supports_convert_src (s src : KStack) (h : supports s (.convertFrom src) = true) : wellKinded src = true := by
+  unfold supports at h; cases hk : kind s with
+  | error e => rw [hk] at h; simp at h
+  | ok k => rw [hk] at h; simp at h; exact h.1
+/-- compatibility is symmetric (a conversion claimed one way is claimed back: C05 `convert_back`) -/
+theorem dec_comm {α : Type} [DecidableEq α] (a b : α) : decide (a = b) = decide (b = a) := by
+  rw [decide_eq_decide]; exact eq_comm
+theorem compatible_symm : ∀ (d s : KStack), compatible d s = compatible s d := by
+  intro d
+  induction d with
+  | layout l a n b ih =>
+    intro s; cases s with
+    | layout l' a' n' b' =>
+      cases b <;> cases b' <;> simp only [compatible]
+      rw [Bool.eq_iff_iff]; simp only [Bool.and_eq_true, decide_eq_true_eq]
+      constructor <;> (intro h; obtain ⟨⟨⟨h1, h3⟩, h4⟩, h5⟩ := h; exact ⟨⟨⟨h1.symm, h3.symm⟩, h4.symm⟩, h5.symm⟩)
+    | _ => cases b <;> simp [compatible]
+  | interp i a n b ih =>
+    intro s; cases s with
+    | interp i' a' n' b' => simp only [compatible, ih b', dec_comm n n']
+    | _ => simp [compatible]
+  | affine b ih =>
+    intro s; cases s with
+    | affine b' =>
+      simp only [compatible, ih b']
+      have : inputEq b b' = inputEq b' b := by
+        unfold inputEq; cases kind b <;> cases kind b' <;> simp only []
+        rename_i k k'
+        rw [Bool.eq_iff_iff]; simp only [decide_eq_true_eq]
+        exact ⟨fun h => ⟨h.1.symm, h.2.symm⟩, fun h => ⟨h.1.symm, h.2.symm⟩⟩
+      rw [this]
+    | _ => simp [compatible]
+  | _ => intro s; cases s <;> simp [compatible]
+
 /-- dimension facts: interpolators and wrappers keep N; casts keep M; storage orders set N -/
-theorem interp_dims (i : Itp) (a : SK) (b : KStack) (kb k : Kind) (hb : kind b = .ok kb)
-    (h : kind (.interp i a b) = .ok k) : k.inDim = kb.inDim ∧ k.outDim = kb.outDim ∧ k.inSk = a := by
-  simp only [kind, hb, layerKind] at h
-  split at h
-  · simp at h
-  · split at h
-    · simp at h
-    · injection h with h; subst h; simp
+theorem interp_dims (i : Itp) (a : SK) (n : Nat) (b : KStack) (kb k : Kind) (hb : kind b = .ok kb)
+    (h : kind (.interp i a n b) = .ok k) : k.inDim = kb.inDim ∧ k.outDim = kb.outDim ∧ k.inSk = a ∧ a.isFloat = true := by
+  rw [kind_compositional _ b rfl, hb] at h
+  simp only [layerKind] at h
+  repeat (split at h; · simp at h)
+  injection h with h; subst h
+  rename_i h1 h2 h3 h4
+  refine ⟨by simp at h4; simpa using h4, rfl, rfl, by simpa using h2⟩
 theorem cast_dims (t : SK) (b : KStack) (kb k : Kind) (hb : kind b = .ok kb) (h : kind (.cast t b) = .ok k) :
     k.inDim = kb.inDim ∧ k.outDim = kb.outDim ∧ k.outSk = t := by
-  simp only [kind, hb, layerKind] at h; injection h with h; subst h; simp
+  rw [kind_compositional _ b rfl, hb] at h
+  simp only [layerKind] at h; injection h with h; subst h; simp
+theorem layout_dims (l : Lay) (a : SK) (n : Nat) (b : KStack) (kb k : Kind) (hb : kind b = .ok kb)
+    (h : kind (.layout l a n b) = .ok k) : k.inDim = n ∧ 0 < n ∧ k.outDim = kb.outDim ∧ (l = .hilbert → n = 2) := by
+  rw [kind_compositional _ b rfl, hb] at h
+  simp only [layerKind] at h
+  repeat (split at h; · simp at h)
+  injection h with h; subst h
+  rename_i h1 h2
+  refine ⟨rfl, Nat.pos_of_ne_zero h1, rfl, fun hl => ?_⟩
+  cases Nat.decEq n 2 with
+  | isTrue e => exact e
+  | isFalse ne => exact absurd ⟨hl, ne⟩ h2
 
 -- the ATLAS-like stack of the test suite and measured view sizes (tests of the model, compared with sizeof by the harness)
-def atlas : KStack := .affine (.interp .linear .f32 (.layout .strided .u64 3 (.array .f32 3)))
+def atlas : KStack := .affine (.interp .linear .f32 3 (.layout .strided .u64 3 (.array .f32 3)))
 example : kind atlas = .ok ⟨.f32, 3, false, .f32, 3, false⟩ := by rfl
+example : wellKinded atlas = true := by rfl
 example : viewSize atlas = .ok (88, 8) := by rfl
 example : viewSize (.backup (.layout .strided .u64 3 (.array .f32 3))) = .ok (104, 8) := by rfl
 example : kind (.layout .hilbert .u64 3 (.array .f32 1)) = .error .hilbertNeeds2D := by rfl
-example : kind (.interp .linear .f32 (.identity .u64 3)) = .error .linearNeedsFloatValues := by rfl
+example : kind (.interp .linear .f32 3 (.identity .u64 3)) = .error .linearNeedsFloatValues := by rfl
+example : kind (.interp .nn .f32 2 (.layout .strided .u64 3 (.array .f32 3))) = .error .interpDimMismatch := by rfl
+example : wellKinded (.clamp (.array .f32 3)) = false ∧ supports (.clamp (.array .f32 3)) .dump = true := by decide
+example : lookupErr (.shuffle [0, 1] (.layout .strided .u64 3 (.array .f32 3))) = some .shuffleArity := by rfl
+example : supports (.layout .strided .u32 2 (.array .f32 3)) (.convertFrom (.layout .mortonF .u32 2 (.array .f32 3))) = true := by decide
+example : supports (.layout .strided .u32 2 (.array .f32 3)) (.convertFrom (.layout .mortonF .u64 2 (.array .f32 3))) = false := by decide
+example : supports (.layout .mortonT .u64 2 (.array .f32 3)) (.convertFrom (.layout .mortonF .u64 2 (.array .f32 3))) = true := by decide
+example : applicable atlas (.convertFrom (.affine (.interp .nn .f32 3 (.layout .mortonF .u64 3 (.array .f32 3))))) = true := by decide
 end Covfie.C13
